@@ -416,6 +416,13 @@ let c03_chk t =
   let steps = tlist t n (fun t -> let c = ti t = 1 in let k = ti t in (c, tlist t k tz)) in
   "ok=" ^ sb (atomic_vis last steps)
 
+(* chk_seqrows <last> <n> {a b} : the recorded ranges (in start order) are pairwise disjoint, non-adjacent, inside 0..=last *)
+let c03_chk_rows t =
+  let last = tz t in let n = ti t in
+  let rs = tlist t n (fun t -> let a = tz t in let b = tz t in (a, b)) in
+  let inside = List.for_all (fun (a, b) -> Z.leb Z0 a && Z.leb b last) rs in
+  "ok=" ^ sb (canonicalb rs && inside)
+
 (* ---------- C05 ---------- *)
 (* srvq <state> <need>          -> the model's answers
    chk_srv <state> <need> <n> {msg}  -> oracle on the implementation's answers
@@ -647,6 +654,7 @@ let handlers : (string * (toks -> string)) list ref = ref [
   "chk_srv", c05_chk;
   "part", c03_part;
   "chk_part", c03_chk;
+  "chk_seqrows", c03_chk_rows;
   "ingest", c10_ingest;
   "uni", c16_uni;
   "serve", c16_serve;
